@@ -21,7 +21,7 @@ RULE = ('cases are histories of 3-8 signing operations, each followed by a contr
         'peer\'s view of signer/hash input/integers changed) reached PGPKey.verify and its verdict was compared with the '
         'ledger; distinct = distinct (signature kind, fault kind) multisets among non-trivial runs')
 TIERS = {'quick': {'runs': 3000, 'budget_s': 80}, 'thorough': {'runs': 250000, 'budget_s': 1500}}
-PROBES = ('backsig_replayed_under_other_primary', 'str_subject_with_lone_surrogate', 'issuer_rewrite_to_encryption_subkey', 'control_verified', 'ledger_entry_not_ref_valid', 'control_failed', 'nonsemantic_skipped', 'mutant_rejected_raise', 'mutant_rejected_falsy',
+PROBES = ('verified_after_signature_expiry', 'backsig_replayed_under_other_primary', 'str_subject_with_lone_surrogate', 'issuer_rewrite_to_encryption_subkey', 'control_verified', 'ledger_entry_not_ref_valid', 'control_failed', 'nonsemantic_skipped', 'mutant_rejected_raise', 'mutant_rejected_falsy',
           'ref_unparsable_skipped', 'splice_cross_history', 'issuer_rewrite', 'subkey_signer', 'msg_multi_signer',
           'verifier_behind_signer', 'sig_expired_at_verify')
 FAULTS = ('sig_mpi_widen', 'sig_flip_hdr', 'sig_flip_hlen', 'sig_flip_hashed', 'sig_flip_mpi', 'sig_type', 'sig_halg', 'sig_pkalg', 'issuer_rewrite',
@@ -49,7 +49,7 @@ def generate(rng, tier):
             st['compression'] = rng.choice([0, 0, 1, 2])
         nd = rng.choice([2, 3, 4, 6]) if tier == 'quick' else rng.choice([3, 5, 8])
         st['deliveries'] = [{'fault': rng.choice(FAULTS), 'pos': rng.random(), 'bit': rng.randrange(8), 'alt': rng.randrange(1 << 16),
-                             'copies': rng.random() < 0.35} for _ in range(nd)]
+                             'copies': rng.random() < 0.35, 'late': rng.random() < 0.4} for _ in range(nd)]
         steps.append(st)
     return {'config': {'keys': keys, 'start_us': 1_600_000_000_000_000}, 'steps': steps}
 
@@ -553,12 +553,23 @@ def _deliver(w, art, mut, definitely, d, step, ledger, ctx, pairs):
         if entries and all(i in ledger for i in ids) and len(entries) == len(rv.entries):
             ctx.probe('nonsemantic_skipped')
             return
-    # --- the verifier party
+    # --- the verifier party (possibly long after the signature was made: its own expiration may have passed by then)
+    late = d.get('late') and step.get('opts', {}).get('expires_s')
+    clock = seams.clock()
+    t0 = clock.us
+    if late:
+        clock.advance((step['opts']['expires_s'] + 86400) * 1_000_000)
+        ctx.probe('verified_after_signature_expiry')
     try:
         with watchdog(30):
-            res = w.pgpy_verify(mut, copies=bool(d.get('copies')))
-            truthy = bool(res)
-            good = list(res.good_signatures)
+            try:
+                res = w.pgpy_verify(mut, copies=bool(d.get('copies')))
+                truthy = bool(res)
+                good = list(res.good_signatures)
+                nexamined = len(res)
+            finally:
+                if late:
+                    clock.set(t0)
     except CallTimeout:
         ctx.probe('pgpy_call_timeout')
         return
@@ -570,6 +581,11 @@ def _deliver(w, art, mut, definitely, d, step, ledger, ctx, pairs):
     ctx.checked()
     pairs.append('%s/%s' % (step['kind'], d['fault']))
     if not good:
+        if truthy and nexamined:
+            # callers act on the truth value: signatures were examined, none is good, and the answer is still yes
+            ctx.viol('C01:accepted:%s:%s' % (d['fault'], step['kind']),
+                     'verify() is truthy for a %s artifact after fault %s although none of the %d signatures examined is listed as good%s'
+                     % (step['kind'], d['fault'], nexamined, ' (verified after the signature\'s own expiry)' if late else ''))
         ctx.probe('mutant_rejected_falsy')
         return
     # every signature PGPy lists as good must be in the ledger
